@@ -383,9 +383,100 @@ def run_poly_mac(env, sh):
     env.check(K.live_heap() == [], 'destroy releases the state')
 
 
+# ---- SP 800-185 (cSHAKE, KMAC, TupleHash): the Python encodings on top of the sponge
+
+def _le(x):
+    n = max(1, (x.bit_length() + 7) // 8)
+    return bytes([n]) + x.to_bytes(n, 'big')
+
+
+def _re(x):
+    n = max(1, (x.bit_length() + 7) // 8)
+    return x.to_bytes(n, 'big') + bytes([n])
+
+
+def _enc_str(P, s):
+    return P.concat(_le(8 * len(s)), s)
+
+
+def _bytepad(P, x, w):
+    t = P.concat(_le(w), x)
+    return P.concat(t, bytes((-len(t)) % w))
+
+
+def _ref_cshake(P, bits, X, L, N, S):
+    cap = 2 * bits // 8
+    rate = 200 - cap
+    if len(N) == 0 and len(S) == 0:
+        return P.keccak(cap, 24, 0x1F, X, L)
+    return P.keccak(cap, 24, 0x04, P.concat(_bytepad(P, P.concat(_enc_str(P, N), _enc_str(P, S)), rate), X), L)
+
+
+def run_sp800_185(env, sh):
+    import importlib
+    P = env.P
+    kind, bits = sh['kind'], sh['bits']
+    rate = 200 - 2 * bits // 8
+    if kind == 'encode':
+        mod = importlib.import_module('Crypto.Hash.cSHAKE128')
+        x = env.int('x', sh['xbits'])
+        if 'base' in sh:
+            x = x + sh['base']
+        nb = sh['nbytes']           # shape: values that need exactly nb bytes
+        env.assume(env.And(x >= (1 << (8 * (nb - 1))) if nb > 1 else x >= 0, x < (1 << (8 * nb))))
+        O = P.i2b(x, nb)
+        env.check(mod._left_encode(x) == P.concat(bytes([nb]), O), 'left_encode(x) == n || O with n the minimal byte count (SP 800-185 s2.3.1)')
+        env.check(mod._right_encode(x) == P.concat(O, bytes([nb])), 'right_encode(x) == O || n with n the minimal byte count')
+        return
+    custom = env.bytes('custom', sh.get('clen', 0))
+    if kind == 'cshake':
+        mod = importlib.import_module('Crypto.Hash.cSHAKE%d' % bits)
+        X = env.bytes('X', sh['n'])
+        h = mod.new(data=X[:sh.get('cut', 0)], custom=custom) if sh.get('clen', 0) else mod.new(data=X[:sh.get('cut', 0)])
+        h.update(X[sh.get('cut', 0):])
+        outs = [h.read(n) for n in sh['reads']]
+        L = sum(sh['reads'])
+        ref = _ref_cshake(P, bits, X, L, P.const(b""), custom)
+        env.check(P.concat(*outs) == ref, 'cSHAKE%d(X, L, "", S) == SP 800-185 s3.3' % bits)
+    elif kind == 'kmac':
+        mod = importlib.import_module('Crypto.Hash.KMAC%d' % bits)
+        key = env.bytes('key', sh['klen'])
+        X = env.bytes('X', sh['n'])
+        L = sh['mac_len']
+        h = mod.new(key=key, mac_len=L, custom=custom) if sh.get('clen', 0) else mod.new(key=key, mac_len=L)
+        h.update(X[:sh.get('cut', 0)])
+        h.update(X[sh.get('cut', 0):])
+        newX = P.concat(_bytepad(P, _enc_str(P, key), rate), X, _re(8 * L))
+        ref = _ref_cshake(P, bits, newX, L, P.const(b"KMAC"), custom)
+        tag = h.digest()
+        env.check(len(tag) == L and tag == ref, 'KMAC%d(K, X, L, S) == SP 800-185 s4.3 for mac_len %d' % (bits, L))
+        v = mod.new(key=key, mac_len=L, custom=custom) if sh.get('clen', 0) else mod.new(key=key, mac_len=L)
+        v.update(X)
+        try:
+            v.verify(ref)
+            env.check(True, 'verify accepts the standard tag')
+        except ValueError:
+            env.check(False, 'verify accepts the standard tag')
+    elif kind == 'tuplehash':
+        mod = importlib.import_module('Crypto.Hash.TupleHash%d' % bits)
+        items = [env.bytes('t%d' % i, n) for i, n in enumerate(sh['items'])]
+        L = sh['dlen']
+        h = mod.new(digest_bytes=L, custom=custom) if sh.get('clen', 0) else mod.new(digest_bytes=L)
+        if sh.get('together'):
+            h.update(*items)
+        else:
+            for it in items:
+                h.update(it)
+        newX = P.concat(*([_enc_str(P, it) for it in items] + [_re(8 * L)]))
+        ref = _ref_cshake(P, bits, newX, L, P.const(b"TupleHash"), custom)
+        env.check(h.digest() == ref, 'TupleHash%d(X, L, S) == SP 800-185 s5.3' % bits)
+    else:
+        raise KeyError(kind)
+
+
 HARNESSES = dict(md=Harness('md', run_md), sponge=Harness('sponge', run_sponge), poly_reduce=Harness('poly_reduce', run_poly_reduce),
                  poly_accumulate=Harness('poly_accumulate', run_poly_accumulate), poly_load=Harness('poly_load', run_poly_load),
-                 poly_mac=Harness('poly_mac', run_poly_mac))
+                 poly_mac=Harness('poly_mac', run_poly_mac), sp800_185=Harness('sp800_185', run_sp800_185))
 
 
 def shapes(tier):
@@ -426,6 +517,24 @@ def shapes(tier):
         jobs.append(('poly_mac', dict(segs=segs)))
     jobs.append(('sponge', dict(cap=200, rounds=24, padding=6, segs=[], reads=[1])))
     jobs.append(('sponge', dict(cap=64, rounds=20, padding=6, segs=[], reads=[1])))
+    # SP 800-185 encodings
+    for nb in (1, 2, 3, 4, 5) if th else (1, 2, 3):
+        jobs.append(('sp800_185', dict(kind='encode', bits=128, xbits=8 * nb, nbytes=nb)))
+    for bits in (128, 256):
+        rate = 200 - 2 * bits // 8
+        for clen in (0, 1, 3) if not th else (0, 1, 3, rate - 7, rate - 6, rate):
+            for n, cut in ((0, 0), (5, 2), (rate + 1, rate)) if not th else ((0, 0), (5, 2), (rate - 1, 1), (rate, rate), (rate + 1, rate), (2 * rate + 3, 7)):
+                jobs.append(('sp800_185', dict(kind='cshake', bits=bits, n=n, cut=cut, clen=clen, reads=[16, 1, rate])))
+        klen = bits // 8
+        for mac_len in (8, 16, 17, 31, 32, 33, 64) if not th else (8, 15, 16, 17, 31, 32, 33, 64, 65, 255, 256, 257):
+            for clen in (0, 2):
+                jobs.append(('sp800_185', dict(kind='kmac', bits=bits, klen=klen + (3 if clen else 0), n=5, cut=2, mac_len=mac_len, clen=clen)))
+        for klen2 in (klen, rate - 4, rate - 3, rate + 5) if th else (klen, rate - 3):
+            jobs.append(('sp800_185', dict(kind='kmac', bits=bits, klen=klen2, n=rate + 1, cut=rate, mac_len=32, clen=0)))
+        for items in ([], [0], [3], [3, 0, 5], [1, 2, 3, 4]) if th else ([], [3, 0, 5]):
+            for dlen in (8, 16, 32, 33) if not th else (8, 16, 31, 32, 33, 64, 256):
+                for together in (False, True):
+                    jobs.append(('sp800_185', dict(kind='tuplehash', bits=bits, items=items, dlen=dlen, together=together, clen=(1 if together else 0))))
     return jobs
 
 
